@@ -24,13 +24,17 @@ from vlib import core, fsimage, tlc
 
 SUB = "vlog"
 BASE = {"Keys": '{"k1", "k2"}', "Readers": '{"r1"}', "NLevels": 2, "FileCap": 1, "Versioning": "FALSE", "Finite": "FALSE",
-        "UseIndex": "FALSE", "Granular": "FALSE", "SyncOnRotate": "TRUE", "CleanupRule": '"min_live"',
-        "HeaderCheck": '"strict"', "CommitChoices": '{"SetB", "SetS", "Del"}', "CursorKinds": '{"range"}',
+        "UseIndex": "FALSE", "Granular": "FALSE", "SyncOnRotate": "TRUE", "CleanupRule": '"no_cursors"',
+        "HeaderCheck": '"lenient"', "CommitChoices": '{"SetB", "SetS", "Del"}', "CursorKinds": '{"range"}',
         "MaxCommits": 3, "MaxFlushes": 2, "MaxCompactions": 1, "MaxReopens": 0, "MaxCrashes": 0, "MaxSteps": 8,
         "TwoPhase": "FALSE", "HandleSteps": "FALSE"}
 SCENARIO_INVS = ["LiveReachable", "IndexReachable", "LiveDurable", "ReadsIntact", "LatestIntact", "CursorIntact",
-                 "HistNowIntact", "ActiveInDir", "HandlesInDir", "OldestExact"]
-CRASH_INVS = ["LiveReachable", "IndexReachable", "LiveDurable", "LatestIntact", "HistNowIntact", "ActiveInDir", "HandlesInDir"]
+                 "HistCursorIntact", "HistNowIntact", "ActiveInDir", "HandlesInDir", "OldestExact"]
+CRASH_INVS = ["LiveReachable", "IndexReachable", "LiveDurable", "LatestIntact", "HistNowIntact", "Reopens", "ActiveInDir",
+              "HandlesInDir"]
+# the behaviour before the two repairs (56ef569, 302562c), kept as "teeth" runs: the model of the pinned behaviour must
+# still produce its counterexamples, and they must not reproduce on the repaired code
+PINNED = {"CleanupRule": '"min_live"', "HeaderCheck": '"strict"'}
 JOBS = "12"
 
 
@@ -139,23 +143,30 @@ def export_and_replay(ctx, name, driver_args, sim=None, depth=None, cex=None, **
     return s
 
 
-def replay_counterexamples(ctx, name, cex_inv, driver_args, expect_kind, **over):
-    """model says the repository breaks `cex_inv`: the schedules must reproduce on the real engine"""
-    lines, total = counterexamples(ctx, name, cex_inv, **over)
-    ctx.cov.setdefault("model_counterexamples", {})[cex_inv] = total
-    if not lines:
-        return 0
-    path = os.path.join(core.WORK, "vlog_cex_%s_%d.ndjson" % (name, os.getpid()))
+def teeth(ctx, name, cex_inv, label, driver_args, **over):
+    """the model of the PINNED (pre-repair) behaviour must still break `label`; the schedules it prints are replayed on
+    the real engine, where they must pass now (a reproduction is reported as a violation by the replay itself)"""
+    lines, total = counterexamples(ctx, name, cex_inv, **dict(PINNED, **over))
+    ctx.cov.setdefault("teeth", {})[label] = {"pinned_model_counterexamples": total, "replayed": len(lines)}
+    if total == 0:
+        raise core.ToolError("the model of the pinned behaviour no longer breaks %s: the teeth run is vacuous" % label)
+    if driver_args is None:
+        return total
+    path = os.path.join(core.WORK, "vlog_teeth_%s_%d.ndjson" % (name, os.getpid()))
     with open(path, "w") as f:
         f.writelines(lines)
-    s = replay_file(ctx, path, driver_args, name)
+    s = core.run_driver("vlog_run", ["replay", path] + driver_args + ["--jobs", JOBS], timeout=3000)
     os.remove(path)
-    hit = sum(n for k, n in (s.get("violation_kinds") or {}).items() if k == expect_kind)
-    if hit == 0:
-        raise core.ToolError("the model breaks %s (%d schedules) but none reproduces on the real engine as %s: "
-                             "the model no longer describes the code" % (cex_inv, total, expect_kind))
-    core.log("[cex] %s: %d schedules in the model, %d replayed, %d reproduced" % (cex_inv, total, len(lines), hit))
-    return hit
+    if s["cases"] == 0:
+        raise core.ToolError("teeth run %s replayed nothing" % name)
+    # the expectations in these lines are the pinned model's: its bookkeeping differs from the repaired code by design
+    s["drift_count"], s["drift"] = 0, []
+    ctx.add_driver(s)
+    _report(ctx, s, driver_args)
+    ctx.cov["teeth"][label]["reproduced_on_repaired_code"] = s["violation_count"]
+    core.log("[teeth] %s: %d counterexamples in the pinned model, %d replayed on the repaired code, %d reproduce" % (
+        label, total, len(lines), s["violation_count"]))
+    return total
 
 
 # ---------------------------------------------------------------------------------------------------------------------
@@ -360,6 +371,7 @@ def sweep_workload(task):
                               if 0 < os.path.getsize(os.path.join(img, "vlog", f)) < 31) if os.path.isdir(os.path.join(img, "vlog")) else []
                 res = reopen(img, meta["opts"], meta_path)
                 out["images"] += 1
+                out["torn_images"] = out.get("torn_images", 0) + (1 if torn else 0)
                 out["by_model"][model.split(":")[0]] = out["by_model"].get(model.split(":")[0], 0) + 1
                 found = judge_image(res)
                 if found and found[0][0] == "reopen_refused" and model == "process" and not vlog_refusal(found[0][2]):
